@@ -110,6 +110,28 @@ def fresh_canvas(plt):
             fig.add_subplot(gs[1, 0])
 
 
+def refused_call_before(plt, P, rng, workdir):
+    """A call the library refuses (a fraction outside [0,1] further down a list, lists of unequal length, too few labels) and
+    after which the user closes nothing, there being nothing on screen: the next plot must still hold exactly what it is asked for."""
+    plt.close("all")
+    bad = rng.choice([
+        lambda: P.show_multiple_phasePlot([0.10, 0.45, 12.0], [0.10, 0.20, 0.30]),
+        lambda: P.show_multiple_phasePlot([0.10, 0.45, 0.2], [0.10, 0.20, -0.30], ["a", "b", "c"], "refused", getFig=True),
+        lambda: P.save_multiple_phasePlot([0.30, 0.2, 0.45, 1.5], [0.10, 0.20, 0.1, 0.1], os.path.join(workdir, "refused")),
+        lambda: P.show_multiple_phasePlot([0.10, 0.45], [0.10, 0.20, 0.30]),
+        lambda: P.show_multiple_uverskyPlot([0.4, 0.5], [0.1, 0.2, 0.3]),
+        lambda: P.show_multiple_phasePlot([0.10, 0.45, 0.2], [0.10, 0.20, 0.30], ["only one"]),
+        lambda: P.show_single_phasePlot(0.3, 1.4),
+        lambda: P.save_single_phasePlot(-0.3, 0.4, os.path.join(workdir, "refused"))])
+    out = common.call(bad, limit=120)
+    for f in glob.glob(os.path.join(workdir, "refused*")):
+        os.remove(f)
+    if out[0] == "ok":
+        plt.close("all")          # it was drawn after all: the user closes what is on screen
+    else:
+        STATE["after_save"] = True          # nothing is closed before the next call
+
+
 def figure_event(ctx, plt, workdir, name, fn, kind, seqs=None, coords=None, getfig=False, save=False, title="", labels=(), xlim=1, ylim=1):
     """Call one entry point and turn the figure into an event."""
     fresh_canvas(plt)
@@ -299,6 +321,8 @@ def run(ctx):
         ev.append(figure_event(ctx, plt, workdir, "SP.show_uverskyPlot(getFig=True) by keyword", lambda: o.show_uverskyPlot(getFig=True),
                                "uversky", seqs=[s], getfig=True, title="Uversky plot", labels=[], xlim=1, ylim=1))
         fmt = rng.choice(["png", "pdf", "svg"])
+        if i % 2 == 0:
+            refused_call_before(plt, P, rng, workdir)
         ev.append(figure_event(ctx, plt, workdir, "SP.save_phaseDiagramPlot", lambda: o.save_phaseDiagramPlot(fn, label, title, leg, xl, yl, fs, fmt),
                                "phase", seqs=[s], save=True, title=title, labels=lab1, xlim=xl, ylim=yl))
         ev.append(figure_event(ctx, plt, workdir, "SP.save_uverskyPlot", lambda: o.save_uverskyPlot(fn, label, title, leg, xl, yl, fs, fmt),
@@ -326,6 +350,8 @@ def run(ctx):
         gf = rng.choice([True, 1, np.bool_(True), False, False])
         ev.append(figure_event(ctx, plt, workdir, "plots.show_multiple_phasePlot", lambda: P.show_multiple_phasePlot(fps, fms, *la, getFig=gf) if not withlab else P.show_multiple_phasePlot(fps, fms, labs, title, leg, xl, yl, fs, gf),
                                "phase", coords=list(zip(fps, fms)), getfig=gf, title=title if withlab else "Diagram of states", labels=want, xlim=xl if withlab else 1, ylim=yl if withlab else 1))
+        if i % 2 == 1:
+            refused_call_before(plt, P, rng, workdir)
         ev.append(figure_event(ctx, plt, workdir, "plots.show_multiple_phasePlot2", lambda: P.show_multiple_phasePlot2(objs, labs, title, leg, xl, yl, fs, gf) if withlab else P.show_multiple_phasePlot2(objs, title=title, xLim=xl, yLim=yl, getFig=gf),
                                "phase", seqs=group, getfig=gf, title=title, labels=want, xlim=xl, ylim=yl))
         ev.append(figure_event(ctx, plt, workdir, "plots.save_multiple_phasePlot", lambda: P.save_multiple_phasePlot(fps, fms, fn, labs, title, leg, xl, yl, fs, fmt) if withlab else P.save_multiple_phasePlot(fps, fms, fn, title=title, xLim=xl, yLim=yl),
